@@ -39,11 +39,28 @@ func verifC02(ssa bool) {
 	puid := rt.String("puid")
 	rt.Assume(puid != "")
 	parent := env.Thing("ns", "p", puid)
+	// second child: drawn first because the quick tier explores some rarer
+	// dimensions (selector with an expression, owner reference on a new child)
+	// only when there is no second child (keeps the product small)
+	nRolesB := 3
+	if rt.Tier() == 1 {
+		nRolesB = numRoles
+	}
+	roleB := rt.Choice("role-b", nRolesB)
+	rare := rt.Tier() == 1 || roleB == 0
 	gensel := rt.Bool("generateSelector")
 	matchKey, matchVal := "controller-uid", puid
+	// a selector may combine matchLabels with matchExpressions: an object that has
+	// the labels but fails an expression does NOT match
+	byExpression := false
 	if !gensel {
 		matchKey, matchVal = "app", "x"
-		parent.Object["spec"].(map[string]interface{})["selector"] = map[string]interface{}{"matchLabels": map[string]interface{}{"app": "x"}}
+		sel := map[string]interface{}{"matchLabels": map[string]interface{}{"app": "x"}}
+		if byExpression = rare && rt.Bool("selector-also-has-a-matchExpression"); byExpression {
+			rt.Cover("selector-with-expression")
+			sel["matchExpressions"] = []interface{}{map[string]interface{}{"key": "track", "operator": "NotIn", "values": []interface{}{"canary"}}}
+		}
+		parent.Object["spec"].(map[string]interface{})["selector"] = sel
 	}
 	w.Srv.Put("things", parent)
 	method := rt.OneOf(rt.String("method"), "InPlace", "Recreate", "OnDelete")
@@ -61,7 +78,12 @@ func verifC02(ssa bool) {
 	for i, name := range names {
 		k := &verifC02Child{name: name}
 		// child b is restricted in the quick tier: absent / owned+matching / foreign
-		r := rt.Choice("role-"+name, nroles[i])
+		var r int
+		if i == 1 {
+			r = roleB
+		} else {
+			r = rt.Choice("role-"+name, nroles[i])
+		}
 		if nroles[i] == 3 {
 			r = []int{roleAbsent, roleOwnedMatching, roleForeignMatching}[r]
 		}
@@ -85,6 +107,10 @@ func verifC02(ssa bool) {
 		}
 		if r == roleOwnedMatching || r == roleOrphanMatching || r == roleForeignMatching {
 			env.SetLabel(o, matchKey, matchVal)
+		} else if byExpression {
+			// has the labels, fails the expression
+			env.SetLabel(o, matchKey, matchVal)
+			env.SetLabel(o, "track", "canary")
 		} else {
 			env.SetLabel(o, matchKey, "something-else")
 		}
@@ -143,7 +169,7 @@ func verifC02(ssa bool) {
 		if !gensel {
 			env.SetLabel(d, "app", "x")
 		}
-		if rt.Bool("new-child-carries-a-plain-owner-reference-to-the-parent") {
+		if rare && rt.Bool("new-child-carries-a-plain-owner-reference-to-the-parent") {
 			// a hand-written garbage-collection reference (controller flag absent)
 			rt.Cover("desired-with-plain-owner-reference")
 			env.AddOwnerRef(d, env.OwnerRefMap("ex.com/v1", "Thing", "p", puid, false))
